@@ -71,14 +71,15 @@ def signature(r):
 def check(run):
     secs = 6 if run.tier == "quick" else 90
     proved = run.prove()
-    static_bad = []
+    static_bad, order_bad = [], []
     if not proved:
         # which rows of the regenerated access table break the lock discipline?
         scratch = os.path.join(vlib.BUILD, "c20_offending.lean")
-        open(scratch, "w").write("import Robust.Race.Discipline\nopen Robust.Race.Discipline in\n#eval offending\n")
+        open(scratch, "w").write("import Robust.Race.Discipline\nopen Robust.Race.Discipline in\n#eval offending\nopen Robust.Race.Discipline in\n#eval orderOffending\n")
         vlib.lake_build(["Robust.Race.Discipline"])
         rc0, out0, _ = vlib.sh(["lake", "env", "lean", scratch], cwd=vlib.LEAN)
         static_bad = re.findall(r'\("([^"]+)", "([^"]+)", "([^"]+)", (true|false), \[([^\]]*)\]\)', re.sub(r"\s+", " ", out0))
+        order_bad = re.findall(r'\("([^"]+)", "([^"]+)", "([^":]+:[^"]+)"\)', re.sub(r"\s+", " ", out0))
     ok, exe, out = vlib.build_harness("race", "", FILES, extra_overlay=irc_run.EXTRA, race=True)
     run.obligation("go harness builds from /repo with -race (package main + overlay)", ok, out)
     if not ok:
@@ -121,11 +122,17 @@ def check(run):
     for fn, st, fld, w, held in static_bad:
         run.violation("lockset:%s:%s.%s" % (fn, st, fld), "%s %s %s.%s while holding only [%s] (lock discipline broken; see Props/C20.lean for the guard)" % (fn, "writes" if w == "true" else "reads", st, fld, held),
                       {"kind": "lockset", "function": fn, "field": st + "." + fld, "write": w == "true", "held": held}, True)
+    for held, acq, fn in order_bad:
+        run.violation("lockorder:%s:%s>%s" % (fn, held, acq), "%s acquires %s while %s is (or may be) held: against the lock order, a deadlock with the paths that take them the other way round" % (fn, acq, held),
+                      {"kind": "lockorder", "function": fn, "held": held, "acquires": acq}, True)
+    hung = "test timed out" in out or "panic: test timed out" in text
+    if hung and not order_bad:
+        run.notes.append("the stress run hung: goroutines blocked on mutexes (deadlock?)")
     for sig, r in sorted(sigs.items()):
         run.violation("race:" + sig, "data race between %s" % sig, {"kind": "race", "signature": sig, "access_a": r["a"], "access_b": r["b"], "how": "VERIF_RACE_SECONDS=%d go test -race harness TestVerifRace" % secs}, True)
-    if not ran and not sigs:
+    if not ran and not sigs and not order_bad:
         run.violation("broken:stress-run", "the stress harness did not run to completion", {"log": out[-2000:]}, False)
-    elif not proved and not sigs and not static_bad:
+    elif not proved and not sigs and not static_bad and not order_bad:
         failed = [o[0] for o in run.failed_obligations()]
         run.violation("broken:" + (failed[0] if failed else "?")[:40], "proof obligations no longer check: %s" % failed, {"broken": failed, "detail": [o[2][-1500:] for o in run.failed_obligations()]}, False)
     run.samples = [{"operations": nops, "seconds": secs}]
